@@ -315,11 +315,14 @@ func setupVesting(w *ledger.World, r *ledger.Runner) {
 			}
 			// destination: mostly other accounts; sometimes the owner itself or a repeated destination
 			var id string
-			switch dr.Pick([]int{20, 1, 1}) {
+			switch dr.Pick([]int{120, 5, 5, 1}) {
 			case 0:
 				id, _ = w.Account(dr.Intn(len(w.Clients) + len(w.Miners) + len(w.Sharders)))
 			case 1:
 				id = from
+			case 3:
+				id = "not-a-client-id" // accepted by add although no transfer to it can ever be made
+				tr.Fault("add_destination_id_not_a_client_id")
 			default:
 				if len(dests) > 0 {
 					id = dests[dr.Intn(len(dests))].ID
